@@ -9,7 +9,8 @@
 // repository.  Compared with the model: all exit statuses, the output trees, and the number of executions of every
 // action.  Direct oracle (independent of the model): every process exits 0; the final trees equal those of a
 // single clean build in a fresh directory; no two executions of the same target's action (or test) overlap; no
-// action runs more than once when nothing forces it.  The real binary is $VERIF_PLZ.
+// action runs more than once when nothing forces it; an output whose contents did not change is still the same
+// file (inode) afterwards.  The real binary is $VERIF_PLZ.
 package main
 
 import (
@@ -22,6 +23,7 @@ import (
 	"strconv"
 	"strings"
 	"sync"
+	"syscall"
 	"time"
 
 	"verif/harness/lib"
@@ -268,7 +270,9 @@ func (r *realRepo) env() []string {
 		"PATH=/usr/local/bin:/usr/bin:/bin", "LC_ALL=C"}
 }
 
-// run starts one plz invocation and waits for it (killed after 120 s).
+// run starts one plz invocation and waits for it.  The bound is deliberately generous (the machine may be heavily
+// loaded); hitting it is reported as an infrastructure failure of this run — possibly a deadlock, which the check
+// then reports as a broken correspondence — never as a verdict of the direct oracle on a slow machine.
 func (r *realRepo) run(args []string) (rc int, out string) {
 	cmd := exec.Command(r.plz, args...)
 	cmd.Dir = r.root
@@ -279,10 +283,11 @@ func (r *realRepo) run(args []string) (rc int, out string) {
 	go func() { b, err = cmd.CombinedOutput(); close(done) }()
 	select {
 	case <-done:
-	case <-time.After(120 * time.Second):
+	case <-time.After(900 * time.Second):
 		cmd.Process.Kill()
 		<-done
-		return 124, "timeout"
+		fmt.Fprintf(os.Stderr, "c31: plz %v did not finish within 900 s in %s (deadlock or overloaded machine)\n", args, r.root)
+		os.Exit(5)
 	}
 	if err != nil {
 		ee, ok := err.(*exec.ExitError)
@@ -350,6 +355,18 @@ func (r *realRepo) tree(t *target) string {
 		parts = append(parts, e.Name()+"="+hx(string(b)))
 	}
 	return "d:" + strings.Join(parts, ",")
+}
+
+// inode of a target's output in plz-out/gen (0 when missing).
+func (r *realRepo) inode(t *target) uint64 {
+	st, err := os.Lstat(filepath.Join(r.root, "plz-out/gen", pkgOf(t.Label), t.Out))
+	if err != nil {
+		return 0
+	}
+	if sys, ok := st.Sys().(*syscall.Stat_t); ok {
+		return sys.Ino
+	}
+	return 0
 }
 
 func (r *realRepo) snapshot(s *repoState, order []string) string {
@@ -779,6 +796,10 @@ func runScenario(idx int, ops []string, scratch, plz string, seed uint64) ([]res
 			before := len(readEvents(rr.log))
 			wasFresh := fresh
 			fresh = false
+			preIno, preTree := map[string]uint64{}, map[string]string{}
+			for _, l := range order {
+				preIno[l], preTree[l] = rr.inode(s.targets[l]), rr.tree(s.targets[l])
+			}
 			rcs := make([]int, len(procs))
 			outs := make([]string, len(procs))
 			var wg sync.WaitGroup
@@ -886,6 +907,19 @@ func runScenario(idx int, ops []string, scratch, plz string, seed uint64) ([]res
 			}
 			if ntests > 0 {
 				counts["par-with-tests"]++
+			}
+			// ---- direct oracle 5: an output whose contents did not change is still the SAME file (moveOutput keeps it in
+			// place: a rebuild to the same bytes, forced or not, must not replace a file other processes may be reading)
+			for _, l := range sorted {
+				if preIno[l] != 0 && preTree[l] == rr.tree(s.targets[l]) {
+					if now := rr.inode(s.targets[l]); now != preIno[l] {
+						fails = append(fails, oracleFail{"unchanged-output-was-replaced", text + fmt.Sprintf("\n# %s: contents unchanged, inode %d -> %d, executed %d times at: %s",
+							l, preIno[l], now, cnt[l], op)})
+						counts["oracle:unchanged-output-was-replaced"]++
+					} else if cnt[l] > 0 {
+						counts["same-bytes-rebuild-kept-file"]++
+					}
+				}
 			}
 			// ---- direct oracle 4: the final trees equal a single clean build in a fresh directory
 			nclean++
